@@ -151,6 +151,7 @@ impl Scenario {
                                 format!("meta {path} mode={mode:?} mtime={mtime:?} owner={owner:?}")
                             }
                             EditOp::BulkEmptyFiles { dir, prefix, count, .. } => format!("{count} empty files {dir}/{prefix}NNNNN"),
+                            EditOp::RawNames { dir, names, kind } => format!("{} non-UTF-8 names (kind {kind}) in {dir}", names.len()),
                         })
                         .collect::<Vec<_>>()
                         .join("; ")
